@@ -3,6 +3,7 @@
   model; arbitrary adversaries are the scheme's hardness assumption, DESIGN §3 — the *partial* part).
 -/
 import PCV.Proofs.KZG10
+import PCV.Proofs.KZG10Extract
 import PCV.Props.Examples
 
 namespace PCV.C03
@@ -68,5 +69,49 @@ theorem kzg10_batch_shape_refused (vk : KZG.VK F) (cs zs vs : List F) (πs : Lis
 
 example : KZG.check (KZG.wfVK (3 : K) 5 2 1) 64 5 (evalPoly [1, 2, 3] 5) ⟨81, some 30⟩ = true ∧
     (2 : K) ≠ 5 ∧ (1 : K) ≠ 0 := by decide
+
+/-- **KZG10, any algebraic forger solves the hardness problem (non-hiding).**  A forger that builds
+its witness from the published key, `W = Σ aᵢ·(βⁱg)` — any coefficients, any number of them — and
+gets a value `v ≠ p(z)` accepted against the honest commitment of `p` has in its hands the
+polynomial `p − v − a·(X − z)`: known coefficients, not the zero polynomial (value `p(z) − v` at
+`z`), and the secret trapdoor is one of its roots.  This is the reduction the scheme's evaluation
+binding rests on, stated for every `p`, `a`, `z`, `v` and every key. -/
+theorem kzg10_algebraic_forgery_reveals_trapdoor (g γ β h : F) (p a : List F) (z v : F)
+    (hg : g ≠ 0) (hh : h ≠ 0) (hv : v ≠ evalPoly p z)
+    (hacc : KZG.check (KZG.wfVK g γ β h) (g * evalPoly p β) z v ⟨g * evalPoly a β, none⟩ = true) :
+    evalPoly (KZG.extractPoly p a z v) β = 0 ∧ evalPoly (KZG.extractPoly p a z v) z ≠ 0 := by
+  obtain ⟨h1, h2⟩ := KZG.forgery_gives_root g γ β h p a z v hg hh hacc
+  exact ⟨h1, by rw [h2]; exact fun h0 => hv (sub_eq_zero.1 h0).symm⟩
+
+/-- the same counted over trapdoors: for fixed `p`, `z`, false `v` and forger coefficients `a`, all
+but at most `max(|p|, |a|+1) − 1` trapdoors reject the forgery -/
+theorem kzg10_algebraic_forgery_exceptional_set (p a : List F) (z v : F) (hv : v ≠ evalPoly p z) :
+    ∃ S : Finset F, S.card ≤ max (max p.length 1) (a.length + 1) - 1 ∧
+      ∀ (g γ β h : F), g ≠ 0 → h ≠ 0 → β ∉ S →
+        KZG.check (KZG.wfVK g γ β h) (g * evalPoly p β) z v ⟨g * evalPoly a β, none⟩ = false :=
+  KZG.forgery_exceptional_set p a z v hv
+
+/-- **KZG10, algebraic forger against a hiding commitment.**  With `W = Σ aᵢ·(βⁱg) + Σ bᵢ·(βⁱγg)` and
+any `random_v`: an accepted false value means the trapdoor is a root of the non-zero polynomial
+`p − v − a·(X − z)`, or the forger has written the hiding generator as an explicit multiple of the
+plain one (`γ = −g·Q_g(β)/Q_γ(β)`), which the setup's independent sampling of `γ` is there to prevent. -/
+theorem kzg10_algebraic_forgery_hiding (g γ β h : F) (p r a b : List F) (z v rv : F)
+    (hg : g ≠ 0) (hh : h ≠ 0) (hv : v ≠ evalPoly p z)
+    (hacc : KZG.check (KZG.wfVK g γ β h) (g * evalPoly p β + γ * evalPoly r β) z v
+      ⟨g * evalPoly a β + γ * evalPoly b β, some rv⟩ = true) :
+    evalPoly (KZG.extractPoly p a z v) z ≠ 0 ∧
+    ((evalPoly (KZG.extractPoly p a z v) β = 0 ∧ γ * evalPoly (KZG.extractPoly r b z rv) β = 0) ∨
+     (evalPoly (KZG.extractPoly r b z rv) β ≠ 0 ∧
+      γ = -(g * evalPoly (KZG.extractPoly p a z v) β) / evalPoly (KZG.extractPoly r b z rv) β)) := by
+  obtain ⟨_, h2, h3⟩ := KZG.forgery_hiding_dichotomy g γ β h p r a b z v rv hg hh hacc
+  exact ⟨by rw [h2]; exact fun h0 => hv (sub_eq_zero.1 h0).symm, h3⟩
+
+/-- non-vacuity: over `ZMod 101` with trapdoor `β = 2`, `p = 1 + 2X + 3X²`, `z = 5`: the forger
+coefficients `a = [57]` get the false value `p(5) + 1` accepted exactly because `β = 2` is a root of
+the extraction polynomial, which is not zero at `z` -/
+example : KZG.check (KZG.wfVK (3 : K) 5 2 1) (3 * evalPoly [1, 2, 3] 2) 5 (evalPoly [1, 2, 3] 5 + 1)
+      ⟨3 * evalPoly [57] 2, none⟩ = true ∧
+    evalPoly (KZG.extractPoly ([1, 2, 3] : List K) [57] 5 (evalPoly [1, 2, 3] 5 + 1)) 2 = 0 ∧
+    evalPoly (KZG.extractPoly ([1, 2, 3] : List K) [57] 5 (evalPoly [1, 2, 3] 5 + 1)) 5 ≠ 0 := by decide
 
 end PCV.C03
